@@ -171,3 +171,30 @@ def report(chk, rid, res, what):
             chk.ob(rid, desc, False, key=f"{k[0]}|{k[1]}|{k[2]}", file=b.file, line=s["line"], fn=b.path,
                    detail=f"{what}: {s['why']}")
     return n_ok
+
+
+def module_of(path):
+    """locality of a function path: everything before its last `::segment` (closure suffixes removed first)"""
+    p = re.sub(r"(::\{closure#\d+\})+$", "", path)
+    i = p.rfind("::")
+    return p[:i] if i > 0 else p
+
+
+def inventory_slack(conf, inv):
+    """unused allowances of confirmed functions that no longer exist under that name (renamed / moved): per (module, kind)"""
+    slack = {}
+    for p, ent in conf.items():
+        if p in inv or not isinstance(ent, dict):
+            continue
+        for k, n in (ent.get("counts") or {}).items():
+            key = (module_of(p), k)
+            slack[key] = slack.get(key, 0) + n
+    return slack
+
+
+def draw_slack(slack, path, kind, need):
+    key = (module_of(path), kind)
+    if need > 0 and slack.get(key, 0) >= need:
+        slack[key] -= need
+        return True
+    return False
